@@ -48,7 +48,7 @@ def bounds(tier):
 
 
 def jobs(tier, seed):
-    out = [("split_index", 0), ("split_index", -1), ("roundtrip",), ("batch_call",), ("mask",), ("index_shape",), ("dat_file", 1), ("dat_file", 2)]
+    out = [("split_index", 0), ("split_index", -1), ("roundtrip",), ("batch_call",), ("mask",), ("index_shape",), ("dat_file", 1), ("dat_file", 2), ("dat_file", 3), ("dat_file", 4)]
     return out
 
 
@@ -321,22 +321,27 @@ def job_dat_file(ss, nfiles):
                 return mom[name]
 
         # several files = the particles distributed over the files (same events in each)
-        groups = [parts] if nfiles == 1 else [parts[:1], parts[1:]]
+        groups = {1: [parts], 2: [parts[:1], parts[1:]], 3: [parts[:2], parts[2:]], 4: [parts[:1], parts[1:2], parts[2:]]}[nfiles]
         files = []
         truth = {p: [mom[p].arr] for p in parts}
         for fi, grp in enumerate(groups):
             fname = "mem%d.dat" % fi
             Fake().savetxt(fname, order=grp)
             files.append(fname)
-        loaded = D.load_dat_file(files if nfiles > 1 else files[0], parts)
+        loaded = D.load_dat_file(files if len(files) > 1 else files[0], parts)
         bad = []
         for p in parts:
             exp = np.concatenate(truth[p], axis=0)
+            if p not in loaded:
+                bad.append(p)
+                continue
             got = loaded[p]
             got = got.arr if hasattr(got, "arr") else np.asarray(got)
             if _same(tensor_of(exp), tensor_of(got)):
                 bad.append(p)
-        ss.concrete("data.dat_file_roundtrip[files=%d]" % nfiles, not bad, key="data.dat_file", payload=dict(kind="dat_file", nfiles=nfiles, bad=bad),
+        if set(map(str, loaded)) != set(parts):
+            bad.append("particle set %s" % sorted(map(str, loaded)))
+        ss.concrete("data.dat_file_roundtrip[layout=%s]" % "+".join("".join(g_) for g_ in groups), not bad, key="data.dat_file", payload=dict(kind="dat_file", nfiles=nfiles, bad=bad),
                     describe="load_dat_file(savetxt(momenta)) returns the same four-momenta for the same particles (multi-file inputs concatenated per particle)")
     finally:
         D.np, CA.np = old_d, old_c
